@@ -233,9 +233,9 @@ func c18Fresh(s *c18State, impl IRoomVersion, ev PDU, op string) PDU {
 // When the same accessors returned normally on the event the copy was derived from (origOK), a
 // panic on the derived event is a different defect from "the parser accepted an event its
 // accessors cannot serve": it is reported under <prefix>/after-<operation>.
-func c18Light(s *c18State, ev PDU, tag string, origOK bool) {
+func c18Light(s *c18State, ev PDU, tag string, origOK bool) (ok bool) {
 	if ev == nil {
-		return
+		return false
 	}
 	d := s
 	if origOK {
@@ -245,13 +245,14 @@ func c18Light(s *c18State, ev PDU, tag string, origOK bool) {
 		}
 		d = &c18State{ctx: s.ctx, prefix: s.prefix + "/after-" + op, seen: map[string]bool{}, quiet: s.quiet}
 	}
-	d.call(tag+"/EventID", func() { _ = ev.EventID() })
-	d.call(tag+"/RoomID", func() { r := ev.RoomID(); _ = r.String() })
-	d.call(tag+"/AuthEventIDs", func() { _ = ev.AuthEventIDs() })
+	ok = !d.call(tag+"/EventID", func() { _ = ev.EventID() })
+	ok = !d.call(tag+"/RoomID", func() { r := ev.RoomID(); _ = r.String() }) && ok
+	ok = !d.call(tag+"/AuthEventIDs", func() { _ = ev.AuthEventIDs() }) && ok
 	d.call(tag+"/SenderID", func() { _ = ev.SenderID() })
 	if d != s {
 		s.ops += d.ops
 	}
+	return ok
 }
 
 func lastSlash(s string) int {
